@@ -312,7 +312,29 @@ func c18(c *Ctx) {
 		}
 		_, isRecv := sub.Call.Args[0].(*ssa.Extract)
 		ph, isPhi := sub.Call.Args[1].(*ssa.Phi)
-		r.Check("Run:delta-is-this-minus-last", isRecv && isPhi && ph.Comment == "lastFlush", sub.Pos(), "flushDelta = thisFlush.Sub(lastFlush)")
+		// "last" is the loop-carried variable that only ever holds the start time or a received tick
+		okLast := isPhi && isLoopHead(ph.Block())
+		if okLast {
+			for _, e := range ph.Edges {
+				switch {
+				case e == sub.Call.Args[0], e == ssa.Value(ph):
+				default:
+					if cl, ok := e.(*ssa.Call); !ok || !isCall(cl, "time.Now") {
+						// values carried by inner phis of the same variable are followed one level
+						if ip, ok := e.(*ssa.Phi); ok {
+							for _, e2 := range ip.Edges {
+								if e2 != sub.Call.Args[0] && e2 != ssa.Value(ph) && e2 != ssa.Value(ip) {
+									okLast = false
+								}
+							}
+						} else {
+							okLast = false
+						}
+					}
+				}
+			}
+		}
+		r.Check("Run:delta-is-this-minus-last", isRecv && okLast, sub.Pos(), "flushDelta = thisFlush.Sub(lastFlush), lastFlush being the previous tick (or the start time)")
 		okArg := false
 		for _, cl := range callsIn(run) {
 			if cal := staticCallee(cl); cal != nil && cal.Name() == "flushData" {
@@ -322,8 +344,22 @@ func c18(c *Ctx) {
 		r.Check("Run:delta-passed-to-flush", okArg, run.Pos(), "flushData receives the delta")
 		okAdv := false
 		if isPhi {
+			var carries func(v ssa.Value, d int) bool
+			carries = func(v ssa.Value, d int) bool {
+				if v == sub.Call.Args[0] {
+					return true
+				}
+				if ip, ok := v.(*ssa.Phi); ok && ip != ph && d < 3 {
+					for _, e2 := range ip.Edges {
+						if carries(e2, d+1) {
+							return true
+						}
+					}
+				}
+				return false
+			}
 			for i, e := range ph.Edges {
-				if e == sub.Call.Args[0] && ph.Block().Preds[i] != run.Blocks[0] {
+				if carries(e, 0) && ph.Block().Preds[i] != run.Blocks[0] {
 					okAdv = true
 				}
 			}
